@@ -24,6 +24,7 @@ import Lattigo.Proofs.Gadget
 import Lattigo.Proofs.GadgetDigits
 import Lattigo.Proofs.GadgetIdentity
 import Lattigo.Proofs.KeySwitch
+import Lattigo.Proofs.KeySwitchHoisted
 import Mathlib.Data.ZMod.Basic
 import Mathlib.Tactic.NormNum
 
@@ -244,6 +245,41 @@ theorem decomposeRNS_noP_ignores_index (qsP : List Nat) (i : Nat) (c : RPoly) :
     decomposeRNS qsP 0 i c = decomposeRNS qsP 0 0 c := by
   simp [decomposeRNS]
 
+/-- …and the gadget identity (G) then FAILS on the executable model: `Q = 5·7`, no `P`, `N = 1`,
+    `c = (1 mod 5, 3 mod 7)`; the code's digits are `(1, 1)` for both rows, `Σ d_i·g_i = (1, 1) ≠ c`. -/
+def cNoP : RPoly := ⟨[5, 7], [[1], [3]]⟩
+
+theorem noP_gadget_identity_counterexample :
+    wsumMat (RPoly.zero [5, 7] 1) (decompose [] 0 [1, 1] cNoP)
+      (pgMat (pgElt [5, 7] [] 1 0) [[()], [()]]) ≠ cNoP := by decide
+
+/-- with `nbPi = 1` (the proposed patch) the same instance satisfies (G) -/
+example : wsumMat (RPoly.zero [5, 7] 1) [[decomposeRNS [] 1 0 cNoP], [decomposeRNS [] 1 1 cNoP]]
+      (pgMat (pgElt [5, 7] [] 1 0) [[()], [()]]) = cNoP := by decide
+
+/-- Defect 1 on the executable model: `q = 1207959937`, no `P`, `w = 10`, the code's 3 digits,
+    `c = 2^30 < q`: `Σ_j d_j·2^{10j} = 0 ≠ c`. -/
+def cTop : RPoly := ⟨[1207959937], [[2 ^ 30]]⟩
+
+theorem bitDecomp_gadget_identity_counterexample :
+    wsumMat (RPoly.zero [1207959937] 1)
+      (decompose [] 10 (gadgetShape [1207959937] 0 0 10) cTop)
+      (pgMat (pgElt [1207959937] [] 1 10) [[(), (), ()]]) ≠ cTop := by
+  have hs : gadgetShape [1207959937] 0 0 10 = [3] := by
+    simp [gadgetShape, baseRNSDecompositionVectorSize, baseTwoDecompositionVectorSize,
+      baseTwoDigits_witness]
+  rw [hs]
+  decide
+
+/-- **hoisted_eq_plain on the executable model**: `GadgetProduct` and `GadgetProductHoisted` fed with
+    `DecomposeNTT(·, ·, nbPi = levelP+1, c)` agree for every key with one entry per row, at least one
+    special prime, and a ciphertext level not above the key's number of rows. -/
+theorem hoisted_eq_plain_R (qsP : List Nat) (nQkey : Nat) (evk : List (List (RPoly × RPoly)))
+    (c : RPoly) (hP : 1 ≤ qsP.length) (hrow : ∀ r ∈ evk, r.length = 1)
+    (hc : 1 ≤ c.qs.length) (hlen : c.qs.length ≤ evk.length) :
+    gadgetProductR qsP 0 nQkey evk c = gadgetProductHoistedR qsP qsP.length nQkey evk c :=
+  KS.hoisted_eq_plain_modDown_R qsP nQkey evk c hP hrow hc hlen
+
 end Lattigo.KS.C04
 
 open Lattigo.KS.C04 in
@@ -264,3 +300,6 @@ open Lattigo.KS.C04 in
 #print axioms Lattigo.KS.C04.digitCount_sufficient_partial
 #print axioms Lattigo.KS.C04.digitCount_fixed_sufficient
 #print axioms Lattigo.KS.C04.decomposeRNS_noP_ignores_index
+#print axioms Lattigo.KS.C04.noP_gadget_identity_counterexample
+#print axioms Lattigo.KS.C04.bitDecomp_gadget_identity_counterexample
+#print axioms Lattigo.KS.C04.hoisted_eq_plain_R
